@@ -21,7 +21,7 @@ RULE = ('seeded template-heavy base models (members share nested types such as v
 ASSUMPTIONS = ['MATLAB gateway ids are renumbered consistently and are normalised before comparison',
                'flagged constructs (known findings of C02) are not generated']
 MIN_EVENTS = {'quick': {'variant_comparisons': 400, 'blocks_compared': 3000},
-              'thorough': {'variant_comparisons': 8000, 'blocks_compared': 60000}}
+              'thorough': {'variant_comparisons': 4000, 'blocks_compared': 60000}}
 
 
 def plan(tier, seed):
